@@ -173,9 +173,16 @@ int __wrap_socket(int a, int b, int c)
 	fd_add(fd);
 	return fd;
 }
+static long g_wild_close;   /* close() by the library of a descriptor it did not acquire */
 int __wrap_close(int fd)
 {
 	if (fd >= 0 && fd < 4096 && g_fdtab[fd]) { g_fdtab[fd] = 0; g_fd_live--; }
+	else if (g_in_lib && fd >= 0) {
+		/* not ours to give away (e.g. a zero-initialised descriptor field closed on a failure path):
+		 * report it and keep the harness' own descriptor open */
+		g_wild_close++;
+		return 0;
+	}
 	return __real_close(fd);
 }
 
@@ -195,7 +202,11 @@ static void on_alarm(int sig)
 
 static void line(const char *ret, const char *st)
 {
-	printf("ret=%s inj=%ld acq=%ld live=%ld/%ld st=%s\n", ret, g_inj, g_nacq, g_mem_live, g_fd_live, st);
+	if (g_wild_close)
+		printf("ret=%s inj=%ld acq=%ld live=%ld/%ld st=%s wildclose=%ld\n", ret, g_inj, g_nacq, g_mem_live,
+			   g_fd_live, st, g_wild_close);
+	else
+		printf("ret=%s inj=%ld acq=%ld live=%ld/%ld st=%s\n", ret, g_inj, g_nacq, g_mem_live, g_fd_live, st);
 }
 static const char *RB(int ok) { return ok ? "ok" : "fail"; }
 
@@ -310,6 +321,7 @@ static void vh_reset(void)
 	g_fd_live = 0;
 	g_nacq = g_inj = 0;
 	g_nfaults = 0;
+	g_wild_close = 0;
 }
 
 #define IS(s) (strcmp(op, s) == 0)
